@@ -1,5 +1,7 @@
-import Driver.Util
-/-! `drv_acceptor`: not built yet -/
-def main : IO UInt32 := do
-  IO.eprintln "drv_acceptor: engine not implemented"
-  return 2
+import Driver.AcceptorDrv
+open Driver
+
+def main (args : List String) : IO UInt32 := do
+  let lines ← readLines (← IO.getStdin) #[]
+  AcceptorDrv.main lines args
+  return 0
